@@ -329,11 +329,22 @@ def _write(fmt, path, tree, opts=None):
 
 
 GROWN = {"grown-nested-item": "nested", "grown-root-item": "root", "grown-nested-attr": "nested",
-         "shared-field-object": "both"}      # one IncludeField object mounted in two scopes under different keys
+         "shared-field-object": "both",      # one IncludeField object mounted in two scopes under different keys
+         "env-bound": "both"}                # the schema sits under an environment prefix and the include fields' own variables are set
 
 
 def _schema(variant, startdir, grown=None):
     import cincoconfig as cc
+    if grown == "env-bound":
+        # (the variables name an existing, empty document: what an include *field* holds is one thing, which files the
+        # document pulls in is another)
+        s = cc.Schema(env="C18E")
+        s.x = cc.IntField(); s.y = cc.StringField(); s.first.q = cc.IntField(); s.sub.z = cc.IntField(); s.sub.w = cc.StringField()
+        s.ul = cc.ListField(); s.ud = cc.DictField(); s.sub.ul = cc.ListField(); s.sub.deep.v = cc.IntField(); s.sub.deep.t = cc.StringField()
+        kw = {"startdir": startdir} if startdir else {}
+        s.include = cc.IncludeField(**kw)
+        s.sub.inc = cc.IncludeField(**kw)
+        return s
     if grown == "shared-field-object":
         s = _schema("none", startdir)
         inc = cc.IncludeField(**({"startdir": startdir} if startdir else {}))
@@ -532,11 +543,16 @@ def _equiv(job, ctx):
                 _write(fmt, os.path.join(incdir, name), t, job.get("opts"))
             mainpath = os.path.join(tmp, "main.cfg")
             maindata = _write(fmt, mainpath, main, job.get("opts"))
+            if grown == "env-bound":
+                dummy = os.path.join(incdir, "env-named.inc")
+                _write(fmt, dummy, {}, job.get("opts"))
+                os.environ["C18E_INCLUDE"] = dummy
+                os.environ["C18E_SUB_INC"] = dummy
             if shared.get("schema") is None:
                 shared["schema"] = _schema(variant, startdir, grown)
             schema = shared["schema"]
             cfg = schema()
-            ref = _schema(variant, startdir)()      # the reference side never touches the include machinery
+            ref = _schema(variant, startdir, grown if grown == "env-bound" else None)()      # the reference side never touches the include machinery
             fp = "C18|equiv|%s|%s|%s|" % (job["variant"], fmt, job["startdir"])
             case = _case(job, [mi, ci])
             ctx.transitions += 1
